@@ -19,7 +19,8 @@ unit-power vector (C05's subject; for 0+2+0 power in [½,1]); (b) the spread wei
 `SpreadingPanner.panning_values_for_weight` are not all zero, so that the vector before normalisation is
 non-zero; (c) `allo_extent.get_gains`' vector before the last `safe_norm` is longer than 1e-16;
 (d) the zone downmix groups are duplicate-free and cover all channels (true of the tables the code builds;
-checked by the correspondence on every run); (e) finiteness / absence of NaN and rounding under float
+checked harness-side on every run, as is `TreeWF` of the allocentric grids the code builds);
+(e) finiteness / absence of NaN and rounding under float
 arithmetic.  (a)-(c), (e) are only searched on the real code (harness/c01.py).
 -/
 import Earverif.Proofs.C01Real
